@@ -112,6 +112,29 @@ thread_local! {
     static LAST_PANIC: RefCell<String> = RefCell::new(String::new());
 }
 
+/// For fuzz targets: keep the default (aborting, printing) hook but remember the message for `catch`.
+pub fn install_panic_hook_once() {
+    use std::sync::Once;
+    static ONCE: Once = Once::new();
+    ONCE.call_once(|| {
+        let default = std::panic::take_hook();
+        std::panic::set_hook(Box::new(move |info| {
+            let msg = if let Some(s) = info.payload().downcast_ref::<&str>() {
+                s.to_string()
+            } else if let Some(s) = info.payload().downcast_ref::<String>() {
+                s.clone()
+            } else {
+                "<non-string panic>".to_string()
+            };
+            LAST_PANIC.with(|p| *p.borrow_mut() = msg.clone());
+            // only the property-violation panic raised by the target itself is reported loudly
+            if msg.starts_with("PROPERTY-VIOLATION") {
+                default(info);
+            }
+        }));
+    });
+}
+
 pub fn install_panic_hook() {
     std::panic::set_hook(Box::new(|info| {
         let msg = if let Some(s) = info.payload().downcast_ref::<&str>() {
